@@ -358,7 +358,11 @@ def fit_peaks(
     results = []
     for i in range(windows.sizes[peak_estimates.dim]):
         window = windows[peak_estimates.dim, i]
-        data_in_window = data[data.dim, window[0] : window[1]]
+        # The optimizer ignores masked points; make the point-count guard, the
+        # initial guesses, and the statistics see the same points.
+        data_in_window = _without_masked_points(
+            data[data.dim, window[0] : window[1]]
+        )
         results.append(
             _fit_peak(
                 data_in_window,
@@ -370,6 +374,15 @@ def fit_peaks(
             )
         )
     return results
+
+
+def _without_masked_points(data: sc.DataArray) -> sc.DataArray:
+    if not data.masks:
+        return data
+    masked = sc.zeros(sizes=data.sizes, dtype=bool)
+    for mask in data.masks.values():
+        masked = masked | mask
+    return data[~masked]
 
 
 def _fit_peak(
